@@ -681,6 +681,28 @@ func (x *Exec) evalCall(c *EvalCtx, n *SCall) Value {
 		}
 		v := x.eval(c, n.Args[0])
 		return Value{T: boolT, Term: Gt(x.specTerm(c, v), Var("alloc0", SInt))}
+	case "lasterr":
+		// lasterr(F): the error (last) result of the most recent call of repository function or method F on this
+		// path. Usable in exit clauses only: a return site that no call of F precedes does not bind the clause.
+		fname := ""
+		if len(n.Args) == 1 {
+			switch a := n.Args[0].(type) {
+			case *SIdent:
+				fname = a.Name
+			case *SSelect:
+				if rid, ok := a.X.(*SIdent); ok {
+					fname = rid.Name + "." + a.Sel // Receiver.Method
+				}
+			}
+		}
+		if fname == "" {
+			panic(c.errf(n, "lasterr expects a function name or Receiver.Method"))
+		}
+		rs, ok := c.st.lastCall[fname]
+		if !ok || len(rs) == 0 || c.atCall {
+			panic(c.errf(n, "unknown identifier lasterr(%s): no call of it precedes this point", fname))
+		}
+		return rs[len(rs)-1]
 	case "allocated":
 		v := x.eval(c, n.Args[0])
 		return Value{T: boolT, Term: Le(x.specTerm(c, v), c.st.watermark())}
